@@ -153,6 +153,9 @@ CHECKS["C10"] = dict(
         dict(harness="formats", prop="exh", cases=T(150, 1500), procs=T(4, 8)),
         dict(harness="formats", prop="codec", cases=T(12000, 250000), procs=T(6, 12)),
         dict(harness="formats_asan", prop="codec", cases=T(3000, 60000), procs=T(2, 4)),
+          # the readers and writers of the other implementation levels (MMX iterators; the general path alone)
+          dict(harness="formats", prop="codec", cases=T(8000, 120000), procs=T(1, 2), env={"PIXMAN_DISABLE": "sse2 ssse3"}, tag="codec_mmx"),
+          dict(harness="formats", prop="codec", cases=T(8000, 120000), procs=T(1, 2), env={"PIXMAN_DISABLE": "fast mmx sse2 ssse3"}, tag="codec_general"),
     ],
     floor=T(40000, 800000), nt_floor=T(10000, 100000),
     assumptions=["reference codec in harness/img.hpp written from the PIXMAN_FORMAT bit fields",
